@@ -1143,6 +1143,7 @@ int Interpret::interpPipe() {
     bool inComment = false;
     bool inString = false;
     bool inQuotedSymbol = false;
+    bool inEscape = false;
 
     bool done  = false;
     buf[0] = '\0';
@@ -1193,7 +1194,14 @@ int Interpret::interpPipe() {
             }
             assert (not inComment and not inQuotedSymbol);
             if (inString) {
-                inString = (c != '\"');
+                // the lexer reads \" and \\ inside a string literal as escapes
+                if (inEscape) {
+                    inEscape = false;
+                } else if (c == '\\') {
+                    inEscape = true;
+                } else {
+                    inString = (c != '\"');
+                }
             } else if (c == '\"') {
                 inString = true;
             }
